@@ -5,6 +5,7 @@ import (
 	"log/slog"
 	"net/http"
 	"reservoir/utils/typeutils"
+	"strings"
 	"time"
 )
 
@@ -106,15 +107,21 @@ func ParseHeaderDirective(header http.Header) *HeaderDirectives {
 				slog.Debug("Error parsing Range header", "error", err, "value", value)
 			}
 		case "Cache-Control":
-			if cc, err := parseCacheControl(value); err == nil {
+			// Directives may be spread over several Cache-Control lines, all of them count
+			allValues := strings.Join(values, ",")
+			if cc, err := parseCacheControl(allValues); err == nil {
 				hd.CacheControl.value = typeutils.Some(cc)
 			} else {
-				slog.Debug("Error parsing Cache-Control header", "error", err, "value", value)
+				// A Cache-Control we cannot parse must not make the response look storable
+				hd.CacheControl.value = typeutils.Some(cacheControl{noCache: true})
+				slog.Debug("Error parsing Cache-Control header", "error", err, "value", allValues)
 			}
 		case "Expires":
 			if t, err := time.Parse(http.TimeFormat, value); err == nil {
 				hd.Expires.value = typeutils.Some(t)
 			} else {
+				// An invalid date, especially "0", means already expired (RFC 9111 section 5.3)
+				hd.Expires.value = typeutils.Some(time.Time{})
 				slog.Debug("Error parsing Expires header", "error", err, "value", value)
 			}
 		}
